@@ -1851,6 +1851,12 @@ var c09natives = map[string]func(vm *c09vm, recv any, args []any) []any{
 	"unicode.IsPrint":   func(vm *c09vm, _ any, a []any) []any { return []any{unicode.IsPrint(c09runeArg(vm, a))} },
 	"unicode.IsSpace":   func(vm *c09vm, _ any, a []any) []any { return []any{unicode.IsSpace(c09runeArg(vm, a))} },
 	"unicode.IsControl": func(vm *c09vm, _ any, a []any) []any { return []any{unicode.IsControl(c09runeArg(vm, a))} },
+	"unicode.IsTitle":   func(vm *c09vm, _ any, a []any) []any { return []any{unicode.IsTitle(c09runeArg(vm, a))} },
+	"unicode.IsMark":    func(vm *c09vm, _ any, a []any) []any { return []any{unicode.IsMark(c09runeArg(vm, a))} },
+	"unicode.IsNumber":  func(vm *c09vm, _ any, a []any) []any { return []any{unicode.IsNumber(c09runeArg(vm, a))} },
+	"unicode.IsPunct":   func(vm *c09vm, _ any, a []any) []any { return []any{unicode.IsPunct(c09runeArg(vm, a))} },
+	"unicode.IsSymbol":  func(vm *c09vm, _ any, a []any) []any { return []any{unicode.IsSymbol(c09runeArg(vm, a))} },
+	"unicode.ToTitle":   func(vm *c09vm, _ any, a []any) []any { return []any{int64(unicode.ToTitle(c09runeArg(vm, a)))} },
 	"unicode.ToUpper":   func(vm *c09vm, _ any, a []any) []any { return []any{int64(unicode.ToUpper(c09runeArg(vm, a)))} },
 	"unicode.ToLower":   func(vm *c09vm, _ any, a []any) []any { return []any{int64(unicode.ToLower(c09runeArg(vm, a)))} },
 	"unicode/utf8.DecodeRuneInString": func(vm *c09vm, _ any, a []any) []any {
